@@ -145,3 +145,35 @@ package gem
 //@   loop 1 invariant dots: rangeindex < rune_count(s) && result == gemDotted(s, rangeindex + 1) && (rangeindex >= 0 ==> prev == rune_val(s, rangeindex))   [C13]
 //@   ensures dots: len(s) > 0 ==> result == gemDotted(s, rune_count(s))   [C13] using dots
 //@   ensures empty: len(s) == 0 ==> result == s   [C13]
+
+// ---- round 20: parseSegments.  The text is cut at the first '+' (build part) and, before it, at the first '-' (pre-release
+// part); every non-empty dot-separated part becomes, in order, the segment createSegment(part); a pre-release part puts the
+// segment "pre" in front of its parts; trailing zero segments are dropped afterwards (removeTrailingZeros), so the clauses
+// speak about the positions the result still has.  gNz counts the non-empty parts among the first n.
+//@ spec gMain0(v string) string = strings.Index(v, "+") != -1 ? v[:strings.Index(v, "+")] : v
+//@ spec gBuild(v string) string = strings.Index(v, "+") != -1 ? v[strings.Index(v, "+")+1:] : ""
+//@ spec gPre(v string) string = strings.Index(gMain0(v), "-") != -1 ? gMain0(v)[strings.Index(gMain0(v), "-")+1:] : ""
+//@ spec gMainPart(v string) string = strings.Index(gMain0(v), "-") != -1 ? gMain0(v)[:strings.Index(gMain0(v), "-")] : gMain0(v)
+//@ spec gNz(parts []string, n int) int = n <= 0 ? 0 : gNz(parts, n - 1) + (parts[n - 1] != "" ? 1 : 0)
+//@ spec gMP(v string) []string = strings.Split(gMainPart(v), ".")
+//@ spec gM(v string) int = gNz(gMP(v), len(gMP(v)))
+//@ spec gPP(v string) []string = strings.Split(gPre(v), ".")
+//@ spec gNzB(b int, parts []string, n int) int = n <= 0 ? b : gNzB(b, parts, n - 1) + (parts[n - 1] != "" ? 1 : 0)
+//@ spec gBP(v string) []string = strings.Split(gBuild(v), ".")
+//@ spec gB(v string) int = gPre(v) != "" ? gNzB(gM(v) + 1, gPP(v), len(gPP(v))) : gM(v)
+//@ spec gTotal(v string) int = gBuild(v) != "" ? gNzB(gB(v), gBP(v), len(gBP(v))) : gB(v)
+//@ func parseSegments
+//@   loop 1 invariant main: len(segments) == gNz(parts, rangeindex + 1) && (forall j int :: 0 <= j && j <= rangeindex && parts[j] != "" ==> 0 <= gNz(parts, j) && gNz(parts, j) < len(segments) && segments[gNz(parts, j)] == createSegment(parts[j]))   [C13]
+//@   loop 2 invariant main: (forall j int :: 0 <= j && j < len(parts) && parts[j] != "" ==> 0 <= gNz(parts, j) && gNz(parts, j) < len(segments) && segments[gNz(parts, j)] == createSegment(parts[j]))   [C13]
+//@   loop 3 invariant main: (forall j int :: 0 <= j && j < len(parts) && parts[j] != "" ==> 0 <= gNz(parts, j) && gNz(parts, j) < len(segments) && segments[gNz(parts, j)] == createSegment(parts[j]))   [C13]
+//@   loop 2 invariant pre: gNz(parts, len(parts)) >= 0 && gNzB(gNz(parts, len(parts)) + 1, prereleaseParts, rangeindex + 1) >= gNz(parts, len(parts)) + 1 && len(segments) == gNzB(gNz(parts, len(parts)) + 1, prereleaseParts, rangeindex + 1) && segments[gNz(parts, len(parts))] == createSegment("pre") && (forall j int :: 0 <= j && j <= rangeindex && prereleaseParts[j] != "" ==> gNz(parts, len(parts)) + 1 <= gNzB(gNz(parts, len(parts)) + 1, prereleaseParts, j) && gNzB(gNz(parts, len(parts)) + 1, prereleaseParts, j) < len(segments) && segments[gNzB(gNz(parts, len(parts)) + 1, prereleaseParts, j)] == createSegment(prereleaseParts[j]))   [C13] using main
+//@   loop 3 invariant pre: (prereleasePart != "" ==> gNz(parts, len(parts)) >= 0 && gNz(parts, len(parts)) < len(segments) && segments[gNz(parts, len(parts))] == createSegment("pre")) && (forall j int :: prereleasePart != "" && 0 <= j && j < len(strings.Split(prereleasePart, ".")) && strings.Split(prereleasePart, ".")[j] != "" ==> gNz(parts, len(parts)) + 1 <= gNzB(gNz(parts, len(parts)) + 1, strings.Split(prereleasePart, "."), j) && gNzB(gNz(parts, len(parts)) + 1, strings.Split(prereleasePart, "."), j) < len(segments) && segments[gNzB(gNz(parts, len(parts)) + 1, strings.Split(prereleasePart, "."), j)] == createSegment(strings.Split(prereleasePart, ".")[j]))   [C13]
+//@   loop 3 invariant build: gNzB((prereleasePart != "" ? gNzB(gNz(parts, len(parts)) + 1, strings.Split(prereleasePart, "."), len(strings.Split(prereleasePart, "."))) : gNz(parts, len(parts))), buildParts, rangeindex + 1) >= (prereleasePart != "" ? gNzB(gNz(parts, len(parts)) + 1, strings.Split(prereleasePart, "."), len(strings.Split(prereleasePart, "."))) : gNz(parts, len(parts))) && len(segments) == gNzB((prereleasePart != "" ? gNzB(gNz(parts, len(parts)) + 1, strings.Split(prereleasePart, "."), len(strings.Split(prereleasePart, "."))) : gNz(parts, len(parts))), buildParts, rangeindex + 1) && (forall j int :: 0 <= j && j <= rangeindex && buildParts[j] != "" ==> (prereleasePart != "" ? gNzB(gNz(parts, len(parts)) + 1, strings.Split(prereleasePart, "."), len(strings.Split(prereleasePart, "."))) : gNz(parts, len(parts))) <= gNzB((prereleasePart != "" ? gNzB(gNz(parts, len(parts)) + 1, strings.Split(prereleasePart, "."), len(strings.Split(prereleasePart, "."))) : gNz(parts, len(parts))), buildParts, j) && gNzB((prereleasePart != "" ? gNzB(gNz(parts, len(parts)) + 1, strings.Split(prereleasePart, "."), len(strings.Split(prereleasePart, "."))) : gNz(parts, len(parts))), buildParts, j) < len(segments) && segments[gNzB((prereleasePart != "" ? gNzB(gNz(parts, len(parts)) + 1, strings.Split(prereleasePart, "."), len(strings.Split(prereleasePart, "."))) : gNz(parts, len(parts))), buildParts, j)] == createSegment(buildParts[j]))   [C13] using main,pre
+//@   ensures main-parts[plain]: forall j int :: gPre(version) == "" && gBuild(version) == "" && 0 <= j && j < len(strings.Split(gMainPart(version), ".")) && strings.Split(gMainPart(version), ".")[j] != "" && gNz(strings.Split(gMainPart(version), "."), j) < len(result0) ==> result0[gNz(strings.Split(gMainPart(version), "."), j)] == createSegment(strings.Split(gMainPart(version), ".")[j])   [C13] using main
+//@   ensures main-parts[pre]: forall j int :: gPre(version) != "" && gBuild(version) == "" && 0 <= j && j < len(strings.Split(gMainPart(version), ".")) && strings.Split(gMainPart(version), ".")[j] != "" && gNz(strings.Split(gMainPart(version), "."), j) < len(result0) ==> result0[gNz(strings.Split(gMainPart(version), "."), j)] == createSegment(strings.Split(gMainPart(version), ".")[j])   [C13] using main
+//@   ensures main-parts[build]: forall j int :: gPre(version) == "" && gBuild(version) != "" && 0 <= j && j < len(strings.Split(gMainPart(version), ".")) && strings.Split(gMainPart(version), ".")[j] != "" && gNz(strings.Split(gMainPart(version), "."), j) < len(result0) ==> result0[gNz(strings.Split(gMainPart(version), "."), j)] == createSegment(strings.Split(gMainPart(version), ".")[j])   [C13] using main
+//@   ensures main-parts[pre-build]: forall j int :: gPre(version) != "" && gBuild(version) != "" && 0 <= j && j < len(strings.Split(gMainPart(version), ".")) && strings.Split(gMainPart(version), ".")[j] != "" && gNz(strings.Split(gMainPart(version), "."), j) < len(result0) ==> result0[gNz(strings.Split(gMainPart(version), "."), j)] == createSegment(strings.Split(gMainPart(version), ".")[j])   [C13] using main
+//@   ensures pre-marker: gPre(version) != "" && gM(version) < len(result0) ==> result0[gM(version)] == createSegment("pre")   [C13] using main,pre
+//@   ensures pre-parts: forall j int :: gPre(version) != "" && 0 <= j && j < len(gPP(version)) && gPP(version)[j] != "" && gNzB(gM(version) + 1, gPP(version), j) < len(result0) ==> result0[gNzB(gM(version) + 1, gPP(version), j)] == createSegment(gPP(version)[j])   [C13] using main,pre
+//@   ensures build-parts: forall j int :: gBuild(version) != "" && 0 <= j && j < len(gBP(version)) && gBP(version)[j] != "" && gNzB(gB(version), gBP(version), j) < len(result0) ==> result0[gNzB(gB(version), gBP(version), j)] == createSegment(gBP(version)[j])   [C13] using main,pre,build
+//@   ensures nothing-else: len(result0) <= gTotal(version) && result1 == nil   [C13] using main,pre,build
